@@ -301,7 +301,16 @@ _W14_GUARDS = {
     "C09": {"providers-behind-the-application's-own-server-type": 4},
     "C15": {"exchange-without-a-type-and-without-a-storage-default": 80},
 }
-for _gs in (_W9_GUARDS, _W10_GUARDS, _W11_GUARDS, _W12_GUARDS, _W13_GUARDS, _W14_GUARDS):
+# ... and with the fifteenth wave (undirected; DESIGN.md 12.22)
+_W15_GUARDS = {
+    "C01": {"time-claims-of-thirteen-digits": 800},
+    "C05": {"assertions-by-clients-registered-for-a-secret": 100, "secret-clients-with-a-registered-key": 100},
+    "C06": {"signing-keys-published-without-a-use": 80},
+    "C09": {"hand-made-jose-headers": 100},
+    "C14": {"assertions-with-rfc3339-time-claims": 100},
+    "C16": {"device-requests-with-a-scope-of-the-application's-own": 500},
+}
+for _gs in (_W9_GUARDS, _W10_GUARDS, _W11_GUARDS, _W12_GUARDS, _W13_GUARDS, _W14_GUARDS, _W15_GUARDS):
     for _p, _g in _gs.items():
         PROPS[_p]["min_probes"]["quick"].update(_g)
 
@@ -338,5 +347,12 @@ _RULE_ADDENDA["C08"] += " Storages that compare an empty secret plainly."
 _RULE_ADDENDA["C09"] += " One LegacyServer world in three behind the application's own server type (answers with Response values of its own making)."
 _RULE_ADDENDA["C15"] += " Storages that leave requested_token_type empty: an issued token must declare its type and the type must describe it."
 _RULE_ADDENDA["C19"] += " Verifiers over the whole unreserved alphabet."
+_RULE_ADDENDA["C01"] += " Time claims of thirteen digits (a legal far-away expiry; an iat that a provider writing milliseconds would send)."
+_RULE_ADDENDA["C05"] += " Clients registered for a secret of which the storage also holds a public key, presenting a faultless assertion (three known findings at introspection / revocation, see known_findings.txt)."
+_RULE_ADDENDA["C06"] += " Signing keys published without a use member (one world in three)."
+_RULE_ADDENDA["C09"] += " Hand-made JOSE headers (members of the wrong JSON type, unknown critical members, embedded keys) over valid claims at every endpoint that takes a token."
+_RULE_ADDENDA["C11"] += " States of base64 letters with spaces."
+_RULE_ADDENDA["C14"] += " Hand-made assertions whose iat/exp are RFC 3339 strings, in UTC or with a zone offset (half of the worlds)."
+_RULE_ADDENDA["C16"] += " Device requests with a scope of the application's own, known to the client's registration or not."
 for _p, _t in _RULE_ADDENDA.items():
     PROPS[_p]["rule"] = PROPS[_p]["rule"] + _t
